@@ -25,6 +25,9 @@ Failure keys "<format>:<aspect>" (gen_io.diff_aspects: a consequence of a report
 defects of the shared dict layer found on the unchanged tree have ONE key each for dict / JSON / YAML, decided on the INPUT:
   json:bounds-above-default  a reaction with lower bound > Configuration().upper_bound and loading raises ValueError
   json:direction-lost        a minimisation model comes back as maximisation
+and one YAML-only defect:
+  yaml:second-trip-float-digits  the YAML loader leaves ruamel ScalarFloat coefficients in the model, which ruamel writes
+                             back with the last mantissa digit decremented for some doubles (second trip changes them)
 """
 import io
 import os
@@ -41,6 +44,11 @@ KNOWN_KEYS = set()
 
 SKIP_ASPECTS = ("groups", "group-name", "group-kind", "group-members", "group-notes", "group-annotation")
 CONFIGS = [(-7.0, 7.0), (-10000.0, 10000.0)]
+# the first N cases of each C10 family (YAML makes a case ~5x dearer than in C10)
+PER_FAMILY = {"quick": {"plain": 220, "min": 80, "awkward": 220, "above": 30, "digits": 16, "genegroup": 12, "noname": 12,
+                        "nocharge": 12, "precision": 70, "emptyreaction": 10, "noobjective": 10},
+              "thorough": {"plain": 3000, "min": 1000, "awkward": 3000, "above": 300, "digits": 100, "genegroup": 60, "noname": 60,
+                           "nocharge": 60, "precision": 800, "emptyreaction": 40, "noobjective": 40}}
 YAML_VARIANTS = [("yaml-str", False, None), ("yaml-str", True, None), ("yaml-path", False, None), ("yaml-path", True, None),
                  ("yaml-handle", False, None)]
 
@@ -141,6 +149,10 @@ def _obs(model):
     return o
 
 
+def _has_scalarfloat(model):
+    return any(type(c).__name__ == "ScalarFloat" for r in model.reactions for c in r._metabolites.values())
+
+
 def _fmt(variant):
     return variant.split("-")[0]
 
@@ -203,7 +215,12 @@ def check_model(model, variants, tmp, tag, replay_base=None):
             try:
                 m2 = load(save(m1, variant, sort, extra, path + ".2"), variant)
                 for aspect, oid, before, after in gen_io.diff_aspects(o1, _obs(m2), skip=SKIP_ASPECTS):
-                    add(f"{fmt}:second-trip-{aspect}", f"second round trip changes {aspect}"
+                    key = f"{fmt}:second-trip-{aspect}"
+                    if fmt == "yaml" and aspect == "stoichiometry" and _has_scalarfloat(m1):
+                        # the round-trip YAML loader leaves ruamel ScalarFloat coefficients in the model; ruamel re-dumps
+                        # them from their remembered text format and drops a unit in the last digit of some mantissas
+                        key = "yaml:second-trip-float-digits"
+                    add(key, f"second round trip changes {aspect}"
                         f"{'' if oid is None else ' of ' + repr(oid)}: {before!r} -> {after!r}"[:400], v)
             except Exception as e:  # noqa
                 if dictish and above and isinstance(e, ValueError):
@@ -265,7 +282,7 @@ def run(tier: str, seed: int) -> dict:
     _quiet()
     t0 = time.time()
     before = cobra.Configuration().bounds
-    base = gen_io.cases(tier, seed)
+    base = gen_io.cases(tier, seed, per_family=PER_FAMILY[tier])
     cases = [(f, s, i, None) for f, s, i in base]
     for j, cfgb in enumerate(CONFIGS):
         cases += [(f, s, i, cfgb) for f, s, i in base if (i + j) % 4 == 0]
